@@ -14,6 +14,7 @@ import (
 	"errors"
 	"fmt"
 	"math/rand"
+	"net"
 	"os"
 	"path/filepath"
 	"runtime"
@@ -52,7 +53,7 @@ type CallIn struct {
 }
 
 type In struct {
-	Kind     string   `json:"kind"` // upd | unstarted | stopped
+	Kind     string   `json:"kind"` // upd | cfgupd | unstarted | stopped | starting-dial | starting-mute
 	Idx      int      `json:"idx"`
 	P        int      `json:"P"`         // plugins
 	U        int      `json:"U"`         // updating goroutines per plugin
@@ -465,10 +466,67 @@ func runLone(in In, dir string) (obs Obs) {
 		}
 		defer r.Stop()
 	}
-	p, err := rt.NewPlugin(sock, "07", "lone", rt.Hooks{})
+	var extra []stub.Option
+	release := make(chan struct{})
+	dialed := make(chan struct{})
+	var relOnce sync.Once
+	releaseNow := func() { relOnce.Do(func() { close(release) }) }
+	defer releaseNow()
+	switch in.Kind {
+	case "starting-dial":
+		// Start() is in progress: the dialer hangs until the case is over
+		extra = append(extra, stub.WithDialer(func(string) (net.Conn, error) {
+			close(dialed)
+			<-release
+			return nil, errors.New("verif: dialer released")
+		}))
+	case "starting-mute":
+		// Start() is in progress: a runtime end that accepts and never answers RegisterPlugin
+		l, err := net.Listen("unix", sock)
+		if err != nil {
+			obs.Status, obs.Note = "error", err.Error()
+			return
+		}
+		defer l.Close()
+		go func() {
+			c, err := l.Accept()
+			if err != nil {
+				return
+			}
+			close(dialed)
+			<-release
+			c.Close()
+		}()
+	}
+	p, err := rt.NewPlugin(sock, "07", "lone", rt.Hooks{}, extra...)
 	if err != nil {
 		obs.Status, obs.Note = "error", err.Error()
 		return
+	}
+	deadline := 5 * time.Second
+	if in.Kind == "starting-dial" || in.Kind == "starting-mute" {
+		startDone := make(chan error, 1)
+		go func() { startDone <- p.Start() }()
+		select {
+		case <-dialed:
+		case <-time.After(5 * time.Second):
+			obs.Status, obs.Note = "error", "Start never reached the connection"
+			return
+		}
+		if in.Kind == "starting-mute" {
+			time.Sleep(20 * time.Millisecond) // let Start get as far as RegisterPlugin
+			deadline = 8 * time.Second        // the stub's own registration time-out is 5 s
+		} else {
+			deadline = 3 * time.Second
+		}
+		defer func() {
+			releaseNow()
+			select {
+			case <-startDone:
+			case <-time.After(10 * time.Second):
+				obs.Note += " (Start still running at the end of the case)"
+			}
+		}()
 	}
 	if in.Kind == "stopped" {
 		if err := p.Start(); err != nil {
@@ -507,8 +565,120 @@ func runLone(in In, dir string) (obs Obs) {
 			obs.Note += " (non-empty failed list)"
 			obs.Result += "+failed"
 		}
-	case <-time.After(5 * time.Second):
+	case <-time.After(deadline):
 		obs.Result = "blocked"
+	}
+	return
+}
+
+// runCfg: every plugin sends its update from inside its Configure handler, i.e. while its
+// stub.Start() is still in progress, against a real runtime. Start must return, the update must
+// reach UpdateFn exactly once, unchanged, and the scripted result must come back unchanged.
+func runCfg(in In, dir string) (obs Obs) {
+	t0 := time.Now()
+	obs.Status = "ok"
+	defer func() {
+		if r := recover(); r != nil {
+			obs.Status, obs.Note = "error", fmt.Sprintf("panic: %v", r)
+		}
+		obs.WallMs = time.Since(t0).Milliseconds()
+	}()
+	byU := map[int]*CallIn{}
+	for i := range in.Calls {
+		byU[in.Calls[i].U] = &in.Calls[i]
+	}
+	var logMu sync.Mutex
+	var fnLog []FnObs
+	syncFn := func(ctx context.Context, cb adaptation.SyncCB) error { _, err := cb(ctx, nil, nil); return err }
+	updateFn := func(_ context.Context, us []*api.ContainerUpdate) ([]*api.ContainerUpdate, error) {
+		sIn := rt.Stamp()
+		list := encAll(us)
+		tk := token(us)
+		spin(in.DwellUs)
+		var failed []*api.ContainerUpdate
+		var err error
+		if script := byU[tk]; script == nil {
+			tk = -2
+			err = errors.New("verif: UpdateFn received a list no plugin sent")
+		} else {
+			failed, err = decAll(script.Failed)
+			if err == nil {
+				err = mkErr(script.Err)
+			}
+		}
+		sOut := rt.Stamp()
+		logMu.Lock()
+		fnLog = append(fnLog, FnObs{In: sIn, Out: sOut, Token: tk, List: list})
+		logMu.Unlock()
+		return failed, err
+	}
+	r, err := rt.NewRuntime(dir, syncFn, updateFn)
+	if err != nil {
+		obs.Status, obs.Note = "error", "runtime: "+err.Error()
+		return
+	}
+	defer r.Stop()
+	cobs := make([]CallObs, len(in.Calls))
+	var cmu sync.Mutex
+	plugs := make([]*rt.Plugin, len(in.Calls))
+	started := make([]chan error, len(in.Calls))
+	for i := range in.Calls {
+		i := i
+		c := &in.Calls[i]
+		cobs[i] = CallObs{U: c.U, Failed: []string{}}
+		p, err := rt.NewPlugin(r.Sock, fmt.Sprintf("%02d", (i*7+3)%100), fmt.Sprintf("p%d", i), rt.Hooks{})
+		if err != nil {
+			obs.Status, obs.Note = "error", "plugin: "+err.Error()
+			return
+		}
+		p.H.Configure = func() {
+			list, err := decAll(c.List)
+			if err != nil {
+				return
+			}
+			s1 := rt.Stamp()
+			cmu.Lock()
+			cobs[i].S1 = s1
+			cmu.Unlock()
+			failed, err := p.Stub.UpdateContainers(list)
+			s2 := rt.Stamp()
+			cmu.Lock()
+			cobs[i].S2, cobs[i].Done, cobs[i].Failed, cobs[i].Err = s2, true, encAll(failed), obsErr(err)
+			cmu.Unlock()
+		}
+		plugs[i] = p
+		started[i] = make(chan error, 1)
+		go func() { started[i] <- p.Start() }()
+	}
+	limit := time.After(10 * time.Second)
+	stuck := map[int]bool{}
+	for i := range plugs {
+		select {
+		case err := <-started[i]:
+			if err != nil {
+				obs.Status, obs.Note = "blocked", fmt.Sprintf("plugin %d: Start failed: %v", i, err)
+			}
+		case <-limit:
+			stuck[i] = true
+			obs.Status, obs.Note = "blocked", fmt.Sprintf("plugin %d: Start did not return within 10s of sending an update from Configure", i)
+		}
+	}
+	for i, p := range plugs {
+		if !stuck[i] { // Stop() of a stuck stub would wait for the same lock: leak it
+			p.Stop()
+		}
+	}
+	logMu.Lock()
+	obs.Fn = append([]FnObs{}, fnLog...)
+	logMu.Unlock()
+	cmu.Lock()
+	obs.Calls = append([]CallObs{}, cobs...)
+	cmu.Unlock()
+	sort.Slice(obs.Fn, func(i, j int) bool { return obs.Fn[i].In < obs.Fn[j].In })
+	for i := range obs.Fn {
+		if obs.Fn[i].List == nil {
+			obs.Fn[i].List = []string{}
+		}
 	}
 	return
 }
@@ -671,6 +841,34 @@ func generate(o *hx.Opts) []In {
 	in := In{Kind: "stopped", Idx: idx, Listen: true, Seed: r.Int63(), Calls: []CallIn{{List: []string{enc(genUpdate(r, "u0-0"))}, Failed: []string{}}}}
 	out = append(out, in)
 	idx++
+	// Start() in progress: hanging dialer (list of 0/1/3), and one mute runtime end
+	for _, nl := range []int{0, 1, 3} {
+		in := In{Kind: "starting-dial", Idx: idx, Seed: r.Int63(), Calls: []CallIn{{List: []string{}, Failed: []string{}}}}
+		for i := 0; i < nl; i++ {
+			in.Calls[0].List = append(in.Calls[0].List, enc(genUpdate(r, fmt.Sprintf("u0-%d", i))))
+		}
+		out = append(out, in)
+		idx++
+	}
+	out = append(out, In{Kind: "starting-mute", Idx: idx, Seed: r.Int63(), Calls: []CallIn{{List: []string{enc(genUpdate(r, "u0-0"))}, Failed: []string{}}}})
+	idx++
+	// updates sent from inside the Configure handler (Start in progress, runtime client exists)
+	for k := 0; k < o.N(12, 200); k++ {
+		in := In{Kind: "cfgupd", Idx: idx, Seed: r.Int63(), U: 1}
+		idx++
+		in.P = 1 + r.Intn(3)
+		in.DwellUs = []int{0, 20, 200}[r.Intn(3)]
+		genCalls(r, &in, 1)
+		for i := range in.Calls { // non-empty lists only: the token identifies the call
+			if len(in.Calls[i].List) == 0 {
+				up := genUpdate(r, fmt.Sprintf("u%d-0", in.Calls[i].U))
+				in.Calls[i].List = []string{enc(up)}
+				in.Calls[i].Failed = []string{}
+				in.Calls[i].Err = nil
+			}
+		}
+		out = append(out, in)
+	}
 	for i := 0; i < n; i++ {
 		in := In{Kind: "upd", Idx: idx, Seed: r.Int63()}
 		idx++
@@ -745,7 +943,9 @@ func Run(o *hx.Opts, w *lineio.Writer) error {
 		switch in.Kind {
 		case "upd":
 			obs = runUpd(in, dir)
-		case "unstarted", "stopped":
+		case "cfgupd":
+			obs = runCfg(in, dir)
+		case "unstarted", "stopped", "starting-dial", "starting-mute":
 			obs = runLone(in, dir)
 		default:
 			obs = Obs{Status: "error", Note: "unknown kind " + in.Kind}
@@ -761,5 +961,5 @@ func Run(o *hx.Opts, w *lineio.Writer) error {
 		}
 		os.RemoveAll(dir)
 		return &lineio.Case{ID: fmt.Sprintf("c19-%s-%d#%d", in.Kind, in.Idx, i), In: in, Obs: obs}
-	})
+	}, nil)
 }
